@@ -791,10 +791,18 @@ fn main() {
                 "V2x64U",
                 &["v128"],
                 &["new", "zipper_merge", "update", "permute_and_update", "finalize64", "finalize128", "finalize256", "modular_reduction",
-                  "load_multiple_of_four", "remainder", "update_remainder", "rotate_32_by", "data_to_lanes", "append"],
+                  "load_multiple_of_four", "remainder", "update_remainder", "rotate_32_by", "data_to_lanes", "append", "checkpoint", "from_checkpoint"],
                 &["Debug", "fmt"],
                 &["unordered_load3"],
                 packet_file.as_ref(),
+                Some((
+                    rustlite::Foreign {
+                        ty: "PortableHash".into(),
+                        arrays: vec![("v0".into(), 4), ("v1".into(), 4), ("mul0".into(), 4), ("mul1".into(), 4)],
+                        sub: ("buffer".into(), vec![("buf".into(), 32), ("buf_index".into(), 0)]),
+                    },
+                    &[("checkpoint", &[], Some(164)), ("from_checkpoint", &[("data", 164)], None)],
+                )),
                 &[("PACKET_SIZE", 32)],
                 "wsrc",
                 sub,
